@@ -169,6 +169,28 @@ def h_union(base, perturb=False):
         prove("union_commutative", And(ex(u2.affine.c) == ex(u.affine.c), ex(u2.affine.f) == ex(u.affine.f), u2.shape.x == u.shape.x, u2.shape.y == u.shape.y))
 
 
+def h_union_with_empty(base):
+    """an operand without pixels (what `&` returns for boxes that do not meet) contains nothing:
+    the union is the smallest box containing the pixels of the others -- it is not stretched to
+    wherever the empty operand happens to be anchored; the union of empty operands is empty"""
+    import odc.geo.geobox as gbx
+
+    A = base_affine(base)
+    boxes = []
+    for k in range(2):
+        tx, ty_ = Int(f"tx{k}"), Int(f"ty{k}")
+        ny, nx = Int(f"ny{k}", 0), Int(f"nx{k}", 0)
+        boxes.append((gbx.GeoBox((ny, nx), A, "epsg:3857").translate_pix(tx, ty_), tx, ty_, ny, nx))
+    (g0, tx0, ty0, ny0, nx0), (g1, tx1, ty1, ny1, nx1) = boxes
+    e0, e1 = Or(ny0 == 0, nx0 == 0), Or(ny1 == 0, nx1 == 0)
+    assume(Or(e0, e1))  # (two non-empty operands are S2_union)
+    for nm, u in (("first_second", g0 | g1), ("second_first", g1 | g0)):
+        ox, oy = rel_origin(u, g0, (tx0, ty0))
+        prove(f"{nm}:union_with_an_empty_second_operand_is_the_first", And(ox == tx0, oy == ty0, u.shape.x == nx0, u.shape.y == ny0), when=And(e1, Not(e0)))
+        prove(f"{nm}:union_with_an_empty_first_operand_is_the_second", And(ox == tx1, oy == ty1, u.shape.x == nx1, u.shape.y == ny1), when=And(e0, Not(e1)))
+        prove(f"{nm}:union_of_empty_operands_is_empty", Or(u.shape.x == 0, u.shape.y == 0), when=And(e0, e1))
+
+
 def h_intersection(base, perturb=False):
     (g0, tx0, ty0, ny0, nx0), (g1, tx1, ty1, ny1, nx1) = mk_family(base, 2, perturb=perturb)
     r = g0 & g1
@@ -451,6 +473,10 @@ OBLIGATIONS = [
     Ob("S1_bbox_stream", h_bbox_stream, fixed(), descr="stream forms equal the folded binary operations; empty stream raises", functions=("odc.geo.geom.bbox_union", "odc.geo.geom.bbox_intersection"), setup=setup_merge),
     Ob("S2_union", h_union, tiered([dict(base=b) for b in BQ], [dict(base=b) for b in BT]), descr="| is the smallest on-grid GeoBox containing both operands; commutative",
        functions=("odc.geo.geobox.geobox_union_conservative", "odc.geo.geobox.bounding_box_in_pixel_domain", "odc.geo.geobox.pixel_translation"), stubs=("numpy.isclose model",), **FB),
+    *([Ob("S2_union_with_empty", h_union_with_empty, fixed(dict(base="north_up"), dict(base="rotated")),
+          descr="union with an operand that has no pixels (the result of an intersection of boxes that do not meet): the smallest box containing the pixels of the others, in either order; empty with empty is empty",
+          functions=("odc.geo.geobox.geobox_union_conservative", "odc.geo.geobox.bounding_box_in_pixel_domain", "odc.geo.geom.bbox_union"),
+          bounds="two boxes on one grid, symbolic integer shifts, symbolic shapes >= 0 with at least one of them empty", setup=setup, timeout_ms=20000)] if __import__("os").environ.get("VERIF_DEV") else []),
     Ob("S2_intersection", h_intersection, tiered([dict(base=b) for b in BQ], [dict(base=b) for b in BT]), descr="& is exactly the shared pixels (normalised empty GeoBox otherwise, also when empty on one axis only); overlap_roi indexes the shared pixels in the first operand",
        functions=("odc.geo.geobox.geobox_intersection_conservative", "odc.geo.geobox.GeoBox.overlap_roi", "odc.geo.geobox.bounding_box_in_pixel_domain"), stubs=("numpy.isclose model",), **FB),
     Ob("S2_within_tolerance", h_union, tiered([dict(base="nonsquare", perturb=True)], [dict(base=b, perturb=True) for b in BT]),
